@@ -31,7 +31,7 @@ CONSTANTS Vias      \* subset of {"dial", "httpget", "authhttp", "jwks"}: how th
 \* certificates the servers of the harness present (leaf first; the CA-signed ones send the CA too)
 \*   valid: signed by the harness CA (trusted by the harness process), right host, in date
 Certs == {"Avalid", "Aself", "Aexpired", "Awronghost", "Bvalid", "Bself"}
-ChainValid(cert) == cert \in {"Avalid", "Bvalid"}
+ChainValid(cert) == cert \in {"Avalid", "Bvalid", "Areissued"}
 Versions == {"tls12", "tls13"}
 
 \* fingerprints: hash of a certificate (or of the CA certificate) in a written form
@@ -64,6 +64,26 @@ SeqCasesOf(s) ==
                                           e \in {FP(OtherCert(s), "lower"), FP(s, "lower")}}
 SeqCases == UNION {SeqCasesOf(s) : s \in SeqServed}
 
+\* sequences on ONE reused configuration (one tls.Config / http.Client / auth.Manager pinned to Avalid)
+\* while the server changes the certificate it presents between the connections:
+\*   AfSame     forged: another key, but the issuer DN and serial number of Avalid (signed by a look-alike CA)
+\*   AfSubj     another key, the subject and SANs of Avalid (self-signed)
+\*   Areissued  Avalid's key and subject re-issued by the CA with another serial number
+\* None of them has Avalid's SHA-256; what an earlier connection of the same configuration accepted
+\* proves nothing about the certificate presented now.
+SwapCerts == {"Avalid", "AfSame", "AfSubj", "Areissued"}
+SwapCase(via, ver, fp, certs) == [via |-> via, ver |-> ver, fp |-> fp, certs |-> certs]
+IsSwap(x) == "certs" \in DOMAIN x
+SwapStep(sc, i) == Case(sc.via, sc.certs[i], sc.ver, sc.fp)
+SwapCases ==
+    {SwapCase(v, tv, FP("Avalid", "lower"), <<a, b>>) : v \in Vias, tv \in Versions, a \in SwapCerts, b \in SwapCerts}
+    \cup {SwapCase(v, tv, FP("Avalid", "lower"), <<"Avalid", b, e>>) : v \in Vias, tv \in Versions,
+                                                                      b \in SwapCerts, e \in SwapCerts}
+\* the steps of a sequence case of either kind
+NSteps(x) == IF IsSwap(x) THEN Len(x.certs) ELSE Len(x.steps)
+StepOf(x, i) == IF IsSwap(x) THEN SwapStep(x, i) ELSE StepCase(x, i)
+IsMulti(x) == IsSeq(x) \/ IsSwap(x)
+
 \* ------------------------------------------------------------------ layer 2
 Match(c) == c.fp.form \in CaseForms /\ c.fp.of = c.served
 Configured(c) == c.fp.form # "empty"
@@ -78,21 +98,21 @@ ConnectImpl(c) ==
 \* ------------------------------------------------------------------ bounded model
 VARIABLES c, res, done
 vars == <<c, res, done>>
-Init == c \in Cases \cup SeqCases /\ res = FALSE /\ done = FALSE
+Init == c \in Cases \cup SeqCases \cup SwapCases /\ res = FALSE /\ done = FALSE
 \* layer 1 keeps nothing between connections: a sequence is decided connection by connection
 Eval == /\ ~done /\ done' = TRUE /\ UNCHANGED c
-        /\ res' = IF IsSeq(c) THEN [i \in 1..Len(c.steps) |-> ConnectImpl(StepCase(c, i))] ELSE ConnectImpl(c)
+        /\ res' = IF IsMulti(c) THEN [i \in 1..NSteps(c) |-> ConnectImpl(StepOf(c, i))] ELSE ConnectImpl(c)
 Next == Eval
 Spec == Init /\ [][Next]_vars
 
 ImplSatisfiesProp ==
-    done => IF IsSeq(c) THEN \A i \in 1..Len(c.steps) : PinOK(StepCase(c, i), res[i]) ELSE PinOK(c, res)
+    done => IF IsMulti(c) THEN \A i \in 1..NSteps(c) : PinOK(StepOf(c, i), res[i]) ELSE PinOK(c, res)
 \* layer 1 is even exact: with a fingerprint it connects iff the pin matches, whatever the chain
 Exact(x, r) == Configured(x) => (r <=> Match(x))
 ImplExact ==
-    done => IF IsSeq(c) THEN \A i \in 1..Len(c.steps) : Exact(StepCase(c, i), res[i]) ELSE Exact(c, res)
+    done => IF IsMulti(c) THEN \A i \in 1..NSteps(c) : Exact(StepOf(c, i), res[i]) ELSE Exact(c, res)
 EmitCases ==
-    done => IF IsSeq(c)
-            THEN Emit("CASE", [c |-> c, l1 |-> res, match |-> [i \in 1..Len(c.steps) |-> Match(StepCase(c, i))]])
+    done => IF IsMulti(c)
+            THEN Emit("CASE", [c |-> c, l1 |-> res, match |-> [i \in 1..NSteps(c) |-> Match(StepOf(c, i))]])
             ELSE Emit("CASE", [c |-> c, l1 |-> res, match |-> Match(c)])
 =============================================================================
